@@ -6,6 +6,7 @@ import json
 import tempfile
 
 from . import common
+from . import c12_loop as LP
 from .wfutil import WF, run
 
 PID = "C12"
@@ -21,7 +22,14 @@ RULE = ("E2: seeded sequences of define (new / full recycle / partial recycle / 
         "with a Python ghost of the executing commands. Oracle B (E3): generated projects (plans with nested hold "
         "blocks, resources, failures inside hold blocks, njob 1..4, seeded completion order) on the real serve(); "
         "start/stop stamps of every simulated command are checked against njob, availability, undefined names and "
-        "open hold blocks of the declaring command. Non-trivial: at least one dispatch refused or delayed by a "
+        "open hold blocks of the declaring command. B3: generated projects whose steps call amend(inp=...) on files "
+        "below a static tree that still need hashing (the command blocks in the RPC while its promoted hash jobs run), "
+        "with hash jobs queued by others (static files, declared inputs), resources, nested hold blocks, sub-plans, "
+        "njob 1..3, plus directed scenarios per mechanism; same stamp checks (a command blocked in an RPC still "
+        "executes). Loop correspondence: the job-loop events of those builds (recorded by run-time wrappers around the "
+        "real Builder/Scheduler/Executor) are replayed by the loop model inside Coq (len(running_tasks) and the number "
+        "of parked amend calls after every event), and the model's counterexample search (shortest_overrun) is "
+        "evaluated with the generated slot tests. Non-trivial: at least one dispatch refused or delayed by a "
         "limit; distinct by the operation sequence / project+schedule")
 TRUSTED_BASE = [
     "Coq 8.16.1 kernel; vm_compute in Examples, refutation witnesses and the correspondence evaluation",
@@ -520,8 +528,92 @@ def _run_traces(ctx, n, length):
     return drivers
 
 
+def _b3_runs(ctx):
+    """The B3 builds (directed scenarios + generated amend projects), run once per check and shared by
+    the loop correspondence and the oracle. Each entry: dict(name, proj, njob, avail, schedule, declared_in,
+    res, rec)."""
+    runs = getattr(ctx, "_c12_b3", None)
+    if runs is not None:
+        return runs
+    runs = []
+    ctx._c12_b3 = runs
+    directed = [("amend-slot:njob=1", LP.scenario_amend_slot(1, 1), 1),
+                ("amend-slot:njob=2", LP.scenario_amend_slot(2, 2, with_static=True), 2),
+                ("amend-slot:small-file", LP.scenario_amend_slot(1, 1, big=False), 1),
+                ("resource-amend", LP.scenario_resource_amend(), 2),
+                ("hold-amend", LP.scenario_hold_amend(), 2)]
+    for name, (proj, avail, din), njob in directed:
+        for schedule in (None, {"seed": 1, "points": ["start", "end"]}):
+            res, rec = LP.run_build(proj, njob, avail, schedule)
+            runs.append({"name": name, "proj": proj, "njob": njob, "avail": avail, "schedule": schedule,
+                         "declared_in": din, "res": res, "rec": rec})
+    for _ in range(ctx.scale(36, 400)):
+        sub = __import__("random").Random(ctx.rng.getrandbits(48))
+        proj, avail, din = LP.gen_amend_project(sub)
+        njob = sub.randint(1, 3)
+        schedule = sub.choice([None, {"seed": sub.getrandbits(30), "points": ["end"]},
+                               {"seed": sub.getrandbits(30), "points": ["start", "end"]}])
+        res, rec = LP.run_build(proj, njob, avail, schedule)
+        runs.append({"name": "gen", "proj": proj, "njob": njob, "avail": avail, "schedule": schedule,
+                     "declared_in": din, "res": res, "rec": rec})
+    return runs
+
+
+def _b3_witness(r):
+    return {"project": r["proj"].to_json(), "schedule": r["schedule"], "njob": r["njob"], "resources": r["avail"],
+            "commands": [[c["label"], c["start"], c["stop"], c["resources"], [x[0] for x in c["rpc"]]]
+                         for c in r["res"].commands]}
+
+
+def _loop_correspondence(ctx):
+    """Part A tie: (1) the model's counterexample search with the generated slot tests; (2) the job-loop
+    events of real builds replayed by the loop model."""
+    import re
+    vals = common.eval_terms(ctx, "ovr", LP.LOOP_HEADER, ["shortest_overrun 1 0 7", "shortest_overrun 2 0 8"])
+    for njob, v in zip((1, 2), vals):
+        ctx.case(("loop-search", njob), True)
+        if v is None:
+            ctx.add_failure("correspondence", "loop:search", "job-loop:search-not-evaluated",
+                            "shortest_overrun could not be evaluated inside Coq", witness=None)
+        elif v.strip().startswith("Some"):
+            evs = re.sub(r"\s+", " ", v.strip()[4:].strip())
+            ctx.count("loop:model_overrun")
+            ctx.add_failure("correspondence", "loop:model-overrun", f"job-loop:slot-test-admits-overrun:njob={njob}",
+                            f"the loop model built from the slot tests of Builder.job_loop ({getattr(ctx, 'facts', {}).get('facts', {}).get('slot_tests')}) "
+                            f"exceeds njob={njob}: after {evs} more step commands execute than the limit "
+                            "(a command parked in amend() has not ended)",
+                            witness={"njob": njob, "loop_events": evs})
+    runs = _b3_runs(ctx)
+    checks = []
+    for r in runs:
+        items = LP.loop_items(r["rec"].events)
+        r["items"] = items
+        checks.append(LP.g_loop_case(r["njob"], items))
+        ctx.case(("loop", tuple(i[0] for i in items), r["njob"]), r["rec"].max_tracked >= r["njob"])
+        ctx.count("loop:events", len(items))
+        ctx.count("loop:amend_waits", sum(1 for i in items if i[0].startswith("LAmendBegin")))
+        ctx.count("loop:hash_tasks", sum(1 for i in items if i[0].startswith("LHashStart")))
+        ctx.count("loop:slots_full", int(r["rec"].max_tracked >= r["njob"]))
+    bad = common.run_cases(ctx, "loop", LP.LOOP_HEADER, checks, chunk=25, timeout=600)
+    ctx.traces_validated += len(checks) - len(bad)
+    for i in bad[:2]:
+        r = runs[i]
+        vals = common.eval_terms(ctx, "lmm", LP.LOOP_HEADER, [LP.g_loop_mismatch(r["njob"], r["items"])])
+        m = re.search(r"Some (\d+)", vals[0] or "")
+        pos = int(m.group(1)) if m else None
+        ev = r["items"][pos] if pos is not None and pos < len(r["items"]) else None
+        kind = ev[0].split()[0] if ev else "?"
+        w = _b3_witness(r)
+        w["loop_trace"] = [list(x) for x in r["items"][: (pos or 0) + 1]]
+        ctx.add_failure("correspondence", "loop:" + kind, f"job-loop:model-disagrees:{kind}",
+                        f"Builder.job_loop and the loop model disagree at event {pos} {ev} (event, len(running_tasks), "
+                        f"parked amend calls as the implementation shows them) of a real build with njob={r['njob']}",
+                        witness=w)
+
+
 def correspondence(ctx):
     _ensure_model(ctx)
+    _loop_correspondence(ctx)
     n = ctx.scale(100, 1200)
     length = ctx.scale(36, 60)
     drivers = _run_traces(ctx, n, length) + _run_scripts(ctx, ctx.scale(16, 120))
@@ -767,6 +859,34 @@ def oracle(ctx):
             ctx.add_failure("oracle", "B1:" + kind, s,
                             f"real serve(), deferring plan re-declares an executing step: {detail}",
                             witness={"project": proj, "schedule": schedule, "njob": 4, "resources": "gpu:1", "commands": trace})
+    # oracle B3: amend()/hash-wait, queued hash jobs, resources, holds on the real serve()
+    for r in _b3_runs(ctx):
+        res, njob = r["res"], r["njob"]
+        _annotate_defs(res, r["proj"].program)
+        found = check_stamps(res, njob, r["avail"], r["declared_in"])
+        if res.max_running > njob and not any(k == "njob-exceeded" for k, _ in found):
+            found.append(("njob-exceeded", f"{res.max_running} simulated commands were executing at once with njob={njob}"))
+        amends = sum(1 for c in res.commands for x in c["rpc"] if x[0] == "amend_step")
+        ctx.case(("B3", r["name"], json.dumps(r["proj"].program, sort_keys=True), njob, json.dumps(r["schedule"])),
+                 res.max_running >= njob or amends > 0)
+        ctx.count("B3:builds")
+        ctx.count("B3:commands", len(res.commands))
+        ctx.count("B3:amend_rpcs", amends)
+        ctx.count("B3:promoted_hash_jobs", sum(1 for e in r["rec"].events if e[0] == "promstart"))
+        ctx.count("B3:hash_tasks_in_slots", sum(1 for e in r["rec"].events if e[0] == "hash"))
+        ctx.count("B3:max_running_eq_njob", int(res.max_running == njob))
+        ctx.count("B3:hold_rpcs", sum(1 for c in res.commands for x in c["rpc"] if x[0] == "hold_dispatch"))
+        if res.error:
+            ctx.count("B3:serve_error")
+        for k, detail in found:
+            s = f"serve:{k}"
+            if k == "njob-exceeded":
+                circ = LP.njob_circumstance(res, njob)
+                s = f"serve:njob-exceeded:{circ[1] if circ else 'max-running'}"
+            if s in seen:
+                continue
+            seen.add(s)
+            ctx.add_failure("oracle", "B3:" + k, s, f"real serve() ({r['name']}): {detail}", witness=_b3_witness(r))
     # oracle B2: random projects
     nb = ctx.scale(40, 500)
     for _ in range(nb):
@@ -792,6 +912,20 @@ def oracle(ctx):
 
 
 def search(ctx):
+    for _ in range(300):
+        sub = __import__("random").Random(ctx.rng.getrandbits(48))
+        proj, avail, din = LP.gen_amend_project(sub)
+        njob = sub.randint(1, 3)
+        schedule = sub.choice([None, {"seed": sub.getrandbits(30), "points": ["end"]},
+                               {"seed": sub.getrandbits(30), "points": ["start", "end"]}])
+        res, rec = LP.run_build(proj, njob, avail, schedule)
+        _annotate_defs(res, proj.program)
+        found = check_stamps(res, njob, avail, din)
+        if found:
+            k, detail = found[0]
+            r = {"proj": proj, "schedule": schedule, "njob": njob, "avail": avail, "res": res}
+            ctx.add_failure("oracle", "search:" + k, f"serve:{k}:search", f"real serve(): {detail}", witness=_b3_witness(r))
+            return
     for _ in range(400):
         sub = __import__("random").Random(ctx.rng.getrandbits(48))
         found, proj, njob, avail, schedule, res = _random_build(sub)
@@ -817,8 +951,9 @@ def replay(ctx, obj):
         resources = w["resources"] if isinstance(w["resources"], str) else ",".join(f"{k}:{v}" for k, v in w["resources"].items())
         with tempfile.TemporaryDirectory(prefix="verif-c12-") as tmp:
             proj.materialise(tmp)
-            res = e3.build(tmp, proj.program, njob=w["njob"], resources=resources, schedule=w["schedule"], timeout=90,
+            res = e3.build(tmp, proj.program, njob=w["njob"], resources=resources or None, schedule=w["schedule"], timeout=90,
                            keep_going=True)
         for c in res.commands:
-            print(c["label"], c["start"], c["stop"], c["resources"])
+            print(c["label"], c["start"], c["stop"], c["resources"], [x[0] for x in c["rpc"]])
+        print("max commands executing at once:", res.max_running, "njob:", w["njob"])
     oracle(ctx)
